@@ -133,7 +133,13 @@ impl<T: FloatT> MatrixMathMut<T> for CscMatrix<T> {
 
 #[allow(non_snake_case)]
 fn _csc_symv_safe<T: FloatT>(A: &CscMatrix<T>, y: &mut [T], x: &[T], a: T, b: T) {
-    y.scale(b);
+    //y need not be set on input when b == 0, as in gemv below.
+    //In particular stale non-finite entries must not survive.
+    if b == T::zero() {
+        y.fill(T::zero());
+    } else {
+        y.scale(b);
+    }
 
     assert!(x.len() == A.n);
     assert!(y.len() == A.n);
@@ -166,7 +172,13 @@ fn _csc_symv_safe<T: FloatT>(A: &CscMatrix<T>, y: &mut [T], x: &[T], a: T, b: T)
 // direct linear solves.
 #[allow(non_snake_case)]
 fn _csc_symv_unsafe<T: FloatT>(A: &CscMatrix<T>, y: &mut [T], x: &[T], a: T, b: T) {
-    y.scale(b);
+    //y need not be set on input when b == 0, as in gemv below.
+    //In particular stale non-finite entries must not survive.
+    if b == T::zero() {
+        y.fill(T::zero());
+    } else {
+        y.scale(b);
+    }
 
     assert!(x.len() == A.n);
     assert!(y.len() == A.n);
